@@ -43,6 +43,7 @@ Inductive cevent :=
 | CCancel (id : N)
 | COriginateBlocked (target tag : N)   (* an own request whose write parks: id allocated and registered, nothing sent yet *)
 | CSendFails (id : N)                  (* ... and whose send then fails: the pending entry is dropped *)
+| CSleep                               (* enterSleep: every peer connection is closed; the control bookkeeping is untouched *)
 | CConnect (p : N) | CDisconnect (p : N) | CSetFail (p : N) (b : bool).
 
 (** result: state, frames sent, responses handed to local callers (request id, tag),
@@ -94,6 +95,7 @@ Definition cstep (s : cstate) (e : cevent) : cstate * list (N * cmsg) * list (N 
       (* delete(pendingControl, id); the counter is NOT handed back: other
          requests may have taken higher ids in the meantime *)
       (mkcstate (c_me s) (c_conns s) (c_failing s) (delN id (c_pending s)) (c_fwd s) (c_next s), [], [], id)
+  | CSleep => (mkcstate (c_me s) [] (c_failing s) (c_pending s) (c_fwd s) (c_next s), [], [], 0)
   | CConnect p => (mkcstate (c_me s) (if memN p (c_conns s) then c_conns s else c_conns s ++ [p]) (delN p (c_failing s)) (c_pending s) (c_fwd s) (c_next s), [], [], 0)
   | CDisconnect p => (mkcstate (c_me s) (delN p (c_conns s)) (c_failing s) (c_pending s) (c_fwd s) (c_next s), [], [], 0)
   | CSetFail p b => (mkcstate (c_me s) (c_conns s) (if b then p :: c_failing s else delN p (c_failing s)) (c_pending s) (c_fwd s) (c_next s), [], [], 0)
